@@ -56,6 +56,12 @@ type XStep struct {
 	Unlink bool `json:"unlink,omitempty"`
 	// reopen (Topen again), read (Tread at offset 0), clunk
 	Ref int `json:"ref,omitempty"`
+	// rebind: the fid of the request blocked on FIFO number Fifo (else of the
+	// first blocked request) is clunked while that request is still inside Ufs
+	// (Rclunk: the number is free at once), and the same fid NUMBER is bound
+	// again by a Twalk to Path and (Open) opened with Mode. The blocked request
+	// is released later: by a "release" step, or after the cut.
+	Open bool `json:"open,omitempty"`
 	// burst: the requests are written in one piece, not awaited, followed in the
 	// same write by a Tversion (Then "version") or at once by the cut ("cut")
 	Burst []XReq `json:"burst,omitempty"`
@@ -421,10 +427,51 @@ steps:
 					return err
 				}
 			}
+		case "rebind":
+			pk := parked[s.Fifo%nXFifo]
+			for i := 0; pk == nil && i < nXFifo; i++ {
+				pk = parked[i]
+			}
+			if pk == nil || pk.fi == 0 || fids[pk.fi].gone {
+				continue
+			}
+			old := fids[pk.fi]
+			t, err := rpc(&ref9p.Msg{Type: ref9p.Tclunk, Fid: old.fid}, "Tclunk of a fid whose request is blocked inside Ufs")
+			if err != nil {
+				return err
+			}
+			if t != ref9p.Rclunk {
+				continue
+			}
+			old.gone = true
+			label("fid clunked while its request is blocked inside Ufs")
+			dir := isDir(s.Path)
+			nf := &xfid{fid: old.fid, fifo: -1, dir: dir}
+			fids = append(fids, nf)
+			if t, err = rpc(&ref9p.Msg{Type: ref9p.Twalk, Fid: 0, Newfid: nf.fid, Wname: splitPath(s.Path)}, "Twalk to a fid number that was just clunked"); err != nil {
+				return err
+			}
+			if t != ref9p.Rwalk {
+				nf.gone = true
+				continue
+			}
+			label("fid number bound again while the request on its previous holder is blocked inside Ufs")
+			if s.Open {
+				mode := s.Mode
+				if dir {
+					mode = 0
+				}
+				if _, err := rpc(&ref9p.Msg{Type: ref9p.Topen, Fid: nf.fid, Mode: mode}, "Topen"); err != nil {
+					return err
+				}
+			}
 		case "release":
 			pk := parked[s.Fifo%nXFifo]
 			if pk == nil {
 				continue
+			}
+			if fids[pk.fi].gone {
+				label("blocked request released before the cut after its fid was clunked")
 			}
 			if err := release(pk, s.Unlink); err != nil {
 				return err
@@ -619,7 +666,7 @@ func genUfsXCase(t *rapid.T) *Case {
 	}
 	n := rapid.IntRange(1, 9).Draw(t, "nsteps")
 	for i := 0; i < n; i++ {
-		s := XStep{Kind: rapid.SampledFrom([]string{"open", "walk", "park", "park", "park", "version", "version", "release", "release", "reopen", "reopen", "read", "clunk", "burst"}).Draw(t, "skind")}
+		s := XStep{Kind: rapid.SampledFrom([]string{"open", "walk", "park", "park", "park", "version", "version", "release", "release", "reopen", "reopen", "read", "clunk", "burst", "rebind", "rebind"}).Draw(t, "skind")}
 		switch s.Kind {
 		case "open", "walk":
 			s.Path = rapid.SampledFrom(xPaths).Draw(t, "path")
@@ -631,6 +678,11 @@ func genUfsXCase(t *rapid.T) *Case {
 		case "release":
 			s.Fifo = rapid.IntRange(0, nXFifo-1).Draw(t, "fifo")
 			s.Unlink = rapid.Bool().Draw(t, "unlink")
+		case "rebind":
+			s.Fifo = rapid.IntRange(0, nXFifo-1).Draw(t, "fifo")
+			s.Path = rapid.SampledFrom(xPaths).Draw(t, "path")
+			s.Mode = rapid.SampledFrom([]uint8{0, 0, 1, 2}).Draw(t, "mode")
+			s.Open = rapid.IntRange(0, 3).Draw(t, "ropen") > 0
 		case "reopen", "read", "clunk":
 			s.Ref = rapid.IntRange(0, 9).Draw(t, "ref")
 			s.Mode = rapid.SampledFrom([]uint8{0, 0, 1}).Draw(t, "mode")
@@ -639,6 +691,23 @@ func genUfsXCase(t *rapid.T) *Case {
 			s.Then = "version"
 		}
 		c.Steps = append(c.Steps, s)
+	}
+	if rapid.IntRange(0, 3).Draw(t, "reuse?") == 0 {
+		// a fid number changes hands under a request blocked inside Ufs, which
+		// returns before (or, without the release step, after) the cut
+		fifo := rapid.IntRange(0, nXFifo-1).Draw(t, "rfifo")
+		blk := []XStep{
+			{Kind: "park", Fifo: fifo, Create: rapid.Bool().Draw(t, "rcreate"), Mode: rapid.SampledFrom([]uint8{0, 0, 1}).Draw(t, "rpmode")},
+			{Kind: "rebind", Fifo: fifo, Path: rapid.SampledFrom(xPaths).Draw(t, "rpath"), Mode: rapid.SampledFrom([]uint8{0, 0, 1, 2}).Draw(t, "rmode"), Open: rapid.IntRange(0, 3).Draw(t, "ropen") > 0},
+		}
+		if rapid.IntRange(0, 3).Draw(t, "rversion") == 0 {
+			blk = append(blk, XStep{Kind: "version"})
+		}
+		if rapid.IntRange(0, 4).Draw(t, "rrelease") > 0 {
+			blk = append(blk, XStep{Kind: "release", Fifo: fifo, Unlink: rapid.Bool().Draw(t, "runlink")})
+		}
+		at := rapid.IntRange(0, len(c.Steps)).Draw(t, "rat")
+		c.Steps = append(c.Steps[:at:at], append(blk, c.Steps[at:]...)...)
 	}
 	if rapid.Bool().Draw(t, "finalburst") {
 		c.Steps = append(c.Steps, XStep{Kind: "burst", Burst: genBurst(t, maxBurst), Then: "cut"})
@@ -671,13 +740,14 @@ func TestEnumUfsExec(t *testing.T) {
 			for _, version := range []bool{false, true} {
 				for _, early := range []bool{false, true} {
 					for _, unlink := range []bool{false, true} {
-						for _, more := range []string{"", "reopen", "read", "clunk"} {
+						for _, more := range []string{"", "reopen", "read", "clunk", "rebind", "rebind+open"} {
 							for _, kind := range []string{"eof", "err"} {
 								idx++
 								if hx.NShards > 1 && idx%hx.NShards != hx.Shard {
 									continue
 								}
-								if more != "" && !early {
+								rebind := strings.HasPrefix(more, "rebind")
+								if more != "" && !early && !rebind {
 									continue // the fid is busy until the release
 								}
 								c := &Case{Variant: "ufsx", Dotu: idx%2 == 0, Maxpend: []int{0, 16}[idx/2%2], Kind: kind, Order: seqInts(nXFifo)}
@@ -685,12 +755,17 @@ func TestEnumUfsExec(t *testing.T) {
 								if version {
 									c.Steps = append(c.Steps, XStep{Kind: "version"})
 								}
+								if rebind {
+									// while the request is still blocked: its fid is clunked
+									// and the number bound again (and opened)
+									c.Steps = append(c.Steps, XStep{Kind: "rebind", Fifo: 1, Path: []string{"b", "d0"}[idx/4%2], Mode: mode, Open: more == "rebind+open"})
+								}
 								if early {
 									c.Steps = append(c.Steps, XStep{Kind: "release", Fifo: 1, Unlink: unlink})
 								} else {
 									c.UnlinkAfter = []bool{false, unlink, false, false}
 								}
-								if more != "" {
+								if more != "" && !rebind {
 									c.Steps = append(c.Steps, XStep{Kind: more, Ref: 2, Mode: mode})
 								}
 								if err := execute("ufs-exec-enum", c); err != nil {
@@ -704,5 +779,5 @@ func TestEnumUfsExec(t *testing.T) {
 			}
 		}
 	}
-	hx.Exhaustive("one request blocked inside Ufs: {Topen of a FIFO, Tcreate naming a FIFO} x {OREAD, OWRITE} x {no Tversion, Tversion while blocked} x {released before, after the cut} x {name kept, removed before the release} x {-, open again, read, clunk} x {EOF, error}")
+	hx.Exhaustive("one request blocked inside Ufs: {Topen of a FIFO, Tcreate naming a FIFO} x {OREAD, OWRITE} x {no Tversion, Tversion while blocked} x {released before, after the cut} x {name kept, removed before the release} x {-, open again, read, clunk; fid clunked and its number walked again (and opened) while the request is blocked} x {EOF, error}")
 }
